@@ -28,6 +28,7 @@ class GuardEval:
         self.S = size
         self.env = dict(args)        # did -> int
         self.views = views           # did -> size of a StringView parameter
+        self.iters = {}              # did of an iterator local -> ("fwd"|"rev", offset) | ("end", dir)
 
     def ev(self, e):
         e = strip_casts(e)
@@ -111,6 +112,10 @@ class GuardEval:
                         self.env[v["did"]] = self.ev(kids(v)[0])
                     except Stop as st:
                         if st.kind == "opaque":
+                            it = iter_value(self, kids(v)[0])
+                            if it is not None:
+                                self.iters[v["did"]] = it       # a named position of this view, the scan comes later
+                                continue
                             raise Stop("scan", kids(v)[0])
                         raise
             return
@@ -132,6 +137,43 @@ class GuardEval:
         raise Stop("scan", s)
 
 
+ITER_FACTORIES = ("cbegin", "begin", "crbegin", "rbegin", "cend", "end", "crend", "rend")
+
+
+def iter_value(ge, e):
+    """("fwd"|"rev", offset) / ("end", dir) if e only names a position of this view (cbegin() + E, crend(), a copy of an
+    iterator local): no algorithm is called in it"""
+    e0 = match.strip_conv(e)
+    while e0 is not None and e0["k"] in ("CXXConstructExpr", "MaterializeTemporaryExpr", "ExprWithCleanups", "CXXBindTemporaryExpr", "ParenExpr") and len(kids(e0)) == 1:
+        e0 = match.strip_conv(kids(e0)[0])
+    if e0 is None:
+        return None
+    for y in ir.walk(e0):
+        if "callee" in y and not (y["callee"]["name"] in ITER_FACTORIES or y.get("op") in ("+",)):
+            return None
+    d = ref_of(e0)
+    if d is not None and d in ge.iters:
+        return ge.iters[d]
+    b = match.binop(e0, ("+",))
+    try:
+        if b:
+            base = iter_value(ge, b[1])
+            if base is not None and base[0] in ("fwd", "rev"):
+                return (base[0], (base[1] + ge.ev(b[2])) & M64)
+            return None
+    except Stop:
+        return None
+    c = match.call_named(e0, ITER_FACTORIES)
+    if c is not None and "callee" in e0 and e0.get("member_call") and strip_casts(kids(e0)[0])["k"] == "This":
+        nm = c["callee"]["name"]
+        if nm in ("cbegin", "begin"):
+            return ("fwd", 0)
+        if nm in ("crbegin", "rbegin"):
+            return ("rev", 0)
+        return ("end", "rev" if nm.startswith(("cr", "r")) else "fwd")
+    return None
+
+
 def scan_start(ge, node):
     """index at which a scan over this view starts: from cbegin()+E / crbegin()+E / ptr_+E inside node"""
     for y in ir.walk(node):
@@ -139,6 +181,12 @@ def scan_start(ge, node):
         if not b:
             continue
         base = strip_casts(b[1])
+        if ref_of(base) in ge.iters and ge.iters[ref_of(base)][0] in ("fwd", "rev"):
+            try:
+                it = ge.iters[ref_of(base)]
+                return it[0], (it[1] + ge.ev(b[2])) & M64
+            except Stop:
+                continue
         c = match.call_named(base, ("cbegin", "begin", "crbegin", "rbegin"))
         try:
             if c is not None and "callee" in base and strip_casts(kids(base)[0])["k"] == "This":
@@ -152,6 +200,8 @@ def scan_start(ge, node):
         c = match.call_named(y, ("cbegin", "begin", "crbegin", "rbegin"))
         if c is not None and "callee" in y and y.get("member_call") and strip_casts(kids(y)[0])["k"] == "This":
             return ("rev" if c["callee"]["name"] in ("crbegin", "rbegin") else "fwd"), 0
+        if y["k"] == "DeclRefExpr" and y["ref"]["id"] in ge.iters and ge.iters[y["ref"]["id"]][0] in ("fwd", "rev"):
+            return ge.iters[y["ref"]["id"]]
     return None
 
 
@@ -367,10 +417,42 @@ def check_primitives(ck, tu):
     ck.ok("BYTE-ORDER-UNSIGNED", "StringView members and operators", "%d functions scanned for signed byte ordering" % n)
 
 
+def scan_bound_grid(fn, call, base_off, ln):
+    """the call's (offset, length) evaluated on the small model for every combination of sizes and integer parameters
+    that reaches it: -> None (all inside), (S, off, len, params) of a combination that runs past the view, or "?" """
+    ints = [p for p in fn.params if "tlx::StringView" not in p["ty"] and any(t in p["ty"] for t in ("unsigned long", "size_t", "size_type"))]
+    views = [p for p in fn.params if "tlx::StringView" in p["ty"]]
+    ids = {y["id"] for y in ir.walk(call)}
+    reached = 0
+    import itertools
+    for S in (0, 1, 2, 3):
+        for iv in itertools.product((0, 1, 2, 3, 4, NPOS), repeat=len(ints)):
+            for vv in itertools.product((0, 1, 2, 4), repeat=len(views)):
+                ge = GuardEval(fn, S, {p["did"]: v for p, v in zip(ints, iv)}, {p["did"]: v for p, v in zip(views, vv)})
+                try:
+                    ge.run(fn.body)
+                    continue
+                except Stop as st:
+                    if st.kind not in ("scan", "return") or st.payload is None or not any(y["id"] in ids for y in ir.walk(st.payload)):
+                        continue
+                try:
+                    off = ge.ev(base_off) if base_off is not None else 0
+                    n = ge.ev(ln)
+                except Stop:
+                    return "?"
+                reached += 1
+                if off > S or n > S - off:
+                    return (S, off, n, iv, vv)
+    return None if reached else "?"
+
+
+SCAN_LEN_ARG = {"find": 1, "compare": 2, "memcmp": 2, "memcpy": 2, "memchr": 2, "copy": 2, "move": 2}
+
+
 def check_scan_bound(ck, fn, call):
     args = kids(call)
     name = call["callee"]["name"]
-    li = 2 if len(args) >= 3 else None
+    li = SCAN_LEN_ARG.get(name) if len(args) >= 3 else None
     if li is None:
         return
     base = strip_casts(args[0])
@@ -410,12 +492,24 @@ def check_scan_bound(ck, fn, call):
                 okk = True
     if okk:
         ck.ok("SCAN-BOUND", "%s %s" % (sig(fn), name), "(ptr_ + %s, %s) stays inside the view" % (off, lt), nontrivial=False)
+        return
+    b0 = match.binop(base, ("+",))
+    r = scan_bound_grid(fn, call, b0[2] if b0 else None, args[li])
+    if r is None:
+        ck.ok("SCAN-BOUND", "%s %s" % (sig(fn), name), "(ptr_ + %s, %s) stays inside the view on the small model (sizes 0..3, parameters incl. npos)" % (off, lt), nontrivial=False)
+    elif r == "?":
+        raise dtable.Undecidable("%s: range of %s(ptr_ + %s, %s) not understood" % (fn.loc, name, off, lt))
     else:
+        S, o_, n_, iv, vv = r
         ck.violation("SCAN-BOUND", fn.qname, sig(fn) + ":" + name,
-                     "%s scans %s bytes from ptr_ + %s: the range is not limited to size_ - %s and runs past the end of the view" % (name, lt, off, off), fn.nloc(call))
+                     "%s scans %s bytes from ptr_ + %s: on a view of size %d that is %s bytes from offset %s, past the end of the view"
+                     % (name, lt, off, S, "npos" if n_ == NPOS else n_, o_), fn.nloc(call))
 
 
 def check_pos_reaches(ck, tu):
+    """a position parameter that is range-checked must flow (through any chain of locals) into an address of the data:
+    ptr_ / begin()-family / an iterator local derived from them, plus or indexed by a value that depends on pos; or be
+    forwarded to another member"""
     for fn in tu.find(record=SV):
         pos = [p for p in fn.params if p["name"] == "pos"]
         if not pos or not fn.body:
@@ -424,29 +518,50 @@ def check_pos_reaches(ck, tu):
         guarded = any(match.binop(y, (">", ">=", "<", "<=")) and ref_of(match.binop(y, (">", ">=", "<", "<="))[1]) == did for y in fn.nodes())
         if not guarded:
             continue
-        uses = [y for y in fn.nodes() if y["k"] == "DeclRefExpr" and y["ref"]["id"] == did]
+
+        def mentions(e, ids):
+            return any(y["k"] == "DeclRefExpr" and y["ref"]["id"] in ids for y in ir.walk(e))
+
+        def is_data(e, iters):
+            for y in ir.walk(e):
+                if y["k"] == "MemberExpr" and match.this_field(y) == "ptr_":
+                    return True
+                if "callee" in y and y.get("member_call") and y["callee"]["name"] in ("data",) + ITER_FACTORIES and strip_casts(kids(y)[0])["k"] == "This":
+                    return True
+                if y["k"] == "DeclRefExpr" and y["ref"]["id"] in iters:
+                    return True
+            return False
+        defs = []        # (target did, rhs expr)
+        for y in fn.nodes():
+            if y["k"] == "VarDecl" and kids(y) and kids(y)[0] is not None:
+                defs.append((y["did"], kids(y)[0]))
+            bq = match.binop(y, ("=", "+=", "-=")) if y["k"] in ("BinaryOperator", "CompoundAssignOperator", "CXXOperatorCallExpr") else None
+            if bq and ref_of(bq[1]) is not None:
+                defs.append((ref_of(bq[1]), bq[2]))
+        tainted, iters = {did}, set()
+        changed = True
+        while changed:
+            changed = False
+            for d, rhs in defs:
+                if d not in tainted and mentions(rhs, tainted):
+                    tainted.add(d); changed = True
+                if d not in iters and is_data(rhs, iters):
+                    iters.add(d); changed = True
         in_access = False
-        for y in uses:
-            par = fn.parent(y)
-            while par is not None and par["k"] in ("ImplicitCastExpr", "ParenExpr"):
-                par = fn.parent(par)
-            b = match.binop(par, ("+", "-")) if par is not None else None
-            if b and strip_casts(par)["k"] in ("BinaryOperator", "CXXOperatorCallExpr"):
-                other = b[1] if strip_casts(b[2]) is y or ref_of(b[2]) == did else b[2]
-                o = strip_casts(other)
-                if match.this_field(o) == "ptr_" or (match.call_named(o, ("data", "cbegin", "begin", "crbegin", "rbegin")) is not None and "callee" in o):
-                    in_access = True
-            if par is not None and "callee" in par and par["callee"].get("record") == SV and par["callee"]["name"] not in ("size", "empty"):
-                in_access = True           # forwarded to another member
-            p2 = match.index_parts(par) if par is not None else None
-            if p2 and match.this_field(p2[0]) == "ptr_":
+        for y in fn.nodes():
+            bq = match.binop(y, ("+", "-")) if y["k"] in ("BinaryOperator", "CXXOperatorCallExpr") else None
+            if bq:
+                for addr, idx in ((bq[1], bq[2]), (bq[2], bq[1])):
+                    if is_data(addr, iters) and mentions(idx, tainted):
+                        in_access = True
+            p2 = match.index_parts(y) if y["k"] in ("ArraySubscriptExpr", "CXXOperatorCallExpr") else None
+            if p2 and is_data(p2[0], iters) and mentions(p2[1], tainted):
                 in_access = True
-            if par is not None and match.binop(par, ("=", "-")) and strip_casts(match.binop(par, ("=", "-"))[1])["k"] == "DeclRefExpr" and \
-                    ref_of(match.binop(par, ("=", "-"))[1]) == did:
-                in_access = True           # re-clamped and used below (covered by GUARD-TABLES)
-        # derived: pos assigned to itself / used through crbegin()+pos etc. is covered above
+            if "callee" in y and y["callee"].get("record") == SV and y["callee"]["name"] not in ("size", "empty") and \
+                    any(mentions(a_, tainted) for a_ in kids(y)[1:] if a_ is not None):
+                in_access = True           # forwarded to another member
         if in_access:
-            ck.ok("POS-REACHES-ACCESS", SV + "::" + sig(fn), "the validated position is part of the accessed address", nontrivial=False)
+            ck.ok("POS-REACHES-ACCESS", SV + "::" + sig(fn), "the validated position flows into the accessed address", nontrivial=False)
         else:
             ck.violation("POS-REACHES-ACCESS", fn.qname, sig(fn), "pos is range-checked but never used to address the data: the operation always works on the beginning of the view", fn.loc)
 
